@@ -10,7 +10,7 @@ git -C /repo worktree add --detach $V/repo HEAD -q || exit 2
 cleanup() { git -C /repo worktree remove --force $V/repo 2>/dev/null; rm -rf $V; }
 trap cleanup EXIT
 mkdir -p $V/demo && cp /tmp/demo-template/go.sum $V/demo/ && sed "s#WORKTREE#$V/repo#" /tmp/demo-template/go.mod > $V/demo/go.mod
-cp "$A/out/demo${I}_test.go" $V/demo/
+cp /tmp/demo-template/demo_test.go $V/demo/; cp "$A/out/demo${I}_test.go" $V/demo/
 rundemo() { (cd $V/demo && timeout 600 go test -count=1 ${DEMOFLAGS:-} ./... >$V/demo.out 2>&1; echo $?); }
 r0=$(rundemo)
 if [ "$r0" != 0 ]; then echo "REJECT: demo fails on the unmodified tree"; tail -5 $V/demo.out; exit 1; fi
